@@ -638,14 +638,17 @@ ASMJIT_FAVOR_SPEED Error Assembler::_emit(InstId inst_id, const Operand_& o0, co
     InstDB::InstFlags inst_flags = inst_info->flags();
 
     // LOCK, XACQUIRE, and XRELEASE prefixes.
-    if (Support::test(options, InstOptions::kX86_Lock)) {
+    if (Support::test(options, InstOptions::kX86_Lock | InstOptions::kX86_XAcquire | InstOptions::kX86_XRelease)) {
+      bool has_lock = Support::test(options, InstOptions::kX86_Lock);
+      bool is_lockable = Support::test(inst_flags, InstDB::InstFlags::kLock);
       bool is_xacq_xrel = Support::test(options, InstOptions::kX86_XAcquire | InstOptions::kX86_XRelease);
 
-      if (ASMJIT_UNLIKELY(!Support::test(inst_flags, InstDB::InstFlags::kLock) && !is_xacq_xrel)) {
+      if (ASMJIT_UNLIKELY(has_lock && !is_lockable && !is_xacq_xrel)) {
         goto InvalidLockPrefix;
       }
 
-      if (is_xacq_xrel) {
+      // XACQUIRE and XRELEASE require LOCK prefix, unless the instruction is not lockable (XRELEASE MOV, XACQUIRE XCHG).
+      if (is_xacq_xrel && (has_lock || !is_lockable)) {
         if (ASMJIT_UNLIKELY(Support::test(options, InstOptions::kX86_XAcquire) && !Support::test(inst_flags, InstDB::InstFlags::kXAcquire))) {
           goto InvalidXAcquirePrefix;
         }
@@ -657,7 +660,9 @@ ASMJIT_FAVOR_SPEED Error Assembler::_emit(InstId inst_id, const Operand_& o0, co
         writer.emit8(Support::test(options, InstOptions::kX86_XAcquire) ? 0xF2u : 0xF3u);
       }
 
-      writer.emit8(0xF0);
+      if (has_lock) {
+        writer.emit8(0xF0);
+      }
     }
 
     // REP and REPNE prefixes.
